@@ -336,7 +336,24 @@ def run(prop, tier="quick", seed=0, replay=None, selftest=None):
     exhaustive = ex is not None
     if ex:
         cases += list(ex)
-    cases += list(prop.generate(rng, n, tier))
+    def _generate(r, k):
+        """a generator that consults the code under test (cross maps, shapes) can be broken BY a changed tree: on a tree
+        that differs from the recorded baseline that is a broken correspondence (the corpus and the failing-input search
+        still run), on the baseline tree it is a harness error"""
+        try:
+            return list(prop.generate(r, k, tier))
+        except Exception as e:
+            try:
+                from . import srcwatch as _sw
+                changed_tree = bool(_sw.changed(compat.REPO)[0])
+            except Exception:
+                changed_tree = False
+            if not changed_tree:
+                raise
+            broken.append(f"generator:{type(e).__name__}: {e}"[:200])
+            print(f"[{pid}] the case generator raised on the changed tree ({type(e).__name__}: {e}); continuing with the corpus")
+            return []
+    cases += _generate(rng, n)
     # source watch (DESIGN 5.6): a changed pybrops source never alarms by itself; it escalates the quick
     # exploration (further PRNG streams) so that an edit is always met with a deeper run
     watch = {"baseline": None, "changed_files": None, "escalated_cases": 0}
@@ -349,7 +366,7 @@ def run(prop, tier="quick", seed=0, replay=None, selftest=None):
             k = int(os.environ.get("VERIF_ESCALATE") or 3)
             n_before = len(cases)
             for j in range(1, k + 1):
-                cases += list(prop.generate(random.Random(seed * 7919 + 17 + j * 1000003), n, tier))
+                cases += _generate(random.Random(seed * 7919 + 17 + j * 1000003), n)
             watch["escalated_cases"] = len(cases) - n_before
             print(f"[{pid}] source watch: {len(diff)} source file(s) differ from baseline {str(base_head)[:8]} "
                   f"({', '.join(diff[:4])}{' ...' if len(diff) > 4 else ''}): exploring {watch['escalated_cases']} further cases")
